@@ -21,6 +21,8 @@ META = {
     'trusted_base': ['python ast', 'sa/specs/fingerprints.json'],
     'exhaustive': True,
 }
+
+META['explanation'] += ' ' + 'R9: structures of keys and certificates are composed as held (order of items, no substituted constants). R10: KEXINIT positions are parsed into the attributes the composer writes there.'
 HERE = os.path.dirname(os.path.dirname(os.path.abspath(__file__)))
 
 
